@@ -1,4 +1,5 @@
 import SphericalVerif.Model.Operators
+import SphericalVerif.Gen.DiffKern
 /-! Line-protocol operations for the differential-operator / conversion model (`none` = unknown op).
     Tokens (after the leading `diff`); doubles are decimal UInt64 bit patterns, complex = `re im`:
       `coef <name> <s> <ell> <m>`                      → one double (or `skip` for `inv` outside its domain)
@@ -58,6 +59,31 @@ def modesOp (name : String) (f : Modes Float) : Option (Modes Float) :=
   | "ethbar" => some (ethbar f)
   | _ => none
 
+/-- the GENERATED loop of a differential operator (Gen/DiffKern.lean, from the text of spherical/modes/derivatives.py) on the
+    executable flat memory; array 7 is the copy the in-place operators work on / the zero-filled output of the others.
+    Returns the new spin weight and the `(ell_max+1)²` cells of array 7. -/
+def genModesOp (name : String) (s : Int) (L : Nat) (a : Array (Cx Float)) : Option (Int × Array (Cx Float)) :=
+  let nanF := Float.ofBits 0x7FF8000000000BAD
+  let sin : Int → Cx Float := fun i => if i < 0 then ⟨nanF, nanF⟩ else a.getD i.toNat ⟨nanF, nanF⟩
+  let zeros : HFMem Float := { map := ∅, dflt := 0.0 }
+  let copy : HFMem Float := Id.run do
+    let mut st := zeros
+    for i in [0:a.size] do
+      st := fwrC (α := Float) st 7 (i : Int) (a.getD i ⟨nanF, nanF⟩)
+    return st
+  let LI : Int := L
+  let out (st : HFMem Float) : Array (Cx Float) := (Array.range ((L+1)*(L+1))).map (fun (i : Nat) => frdC (α := Float) st 7 (i : Int))
+  match name with
+  | "Lsquared" => some (s, out (Gen.Modes_Lsquared_loop (α := Float) 7 LI 0 s copy))
+  | "Rsquared" => some (s, out (Gen.Modes_Lsquared_loop (α := Float) 7 LI 0 s copy))
+  | "Lz" => some (s, out (Gen.Modes_Lz_loop (α := Float) 7 LI 0 s copy))
+  | "Lplus" => some (s, out (Gen.Modes_Lplus_loop (α := Float) sin 7 LI 0 s LI 0 s zeros))
+  | "Lminus" => some (s, out (Gen.Modes_Lminus_loop (α := Float) sin 7 LI 0 s zeros))
+  | "Rplus" => some (s - 1, out (Gen.Modes_Rplus_loop (α := Float) sin 7 LI 0 (s - 1) LI 0 s zeros))
+  | "Rminus" => some (s + 1, out (Gen.Modes_Rminus_loop (α := Float) sin 7 LI 0 (s + 1) LI 0 s zeros))
+  | "eth" => some (s + 1, out (Gen.Modes_Rminus_loop (α := Float) sin 7 LI 0 (s + 1) LI 0 s zeros))
+  | _ => none
+
 def arrayOp (name : String) (a : Array (Cx Float)) (s ellMin : Int) : Option (Array (Cx Float)) :=
   match name with
   | "eth_GHP" => some (ethGHP a s ellMin)
@@ -92,6 +118,10 @@ def step (toks : List String) : Option String :=
     let s ← s.toInt?; let ellMax ← ellMax.toNat?
     let g ← modesOp name (Modes.ofArray s ellMax (parseCx w))
     pure ("s=" ++ toString g.s ++ " L=" ++ toString g.ellMax ++ " " ++ showCx g.toArray)
+  | "genmodesop" :: name :: s :: ellMax :: w => do
+    let s ← s.toInt?; let ellMax ← ellMax.toNat?
+    let (gs, cells) ← genModesOp name s ellMax (parseCx w)
+    pure ("s=" ++ toString gs ++ " L=" ++ toString ellMax ++ " " ++ showCx cells)
   | "arrayop" :: name :: s :: ellMin :: n :: w => do
     let s ← s.toInt?; let ellMin ← ellMin.toInt?; let n ← n.toNat?
     let a := parseCx w
